@@ -31,6 +31,8 @@ var selValues = [][][]string{
 		{"1", "1", "1"},
 		{"1X-B2", "1X-B2", "1X-B2"},
 		{"X-B", "X-B", "X-B"},
+		{"v\xff", "v\xff", "v\xff"}, // classes 4 and 5: two different values that are not UTF-8
+		{"v\xfe", "v\xfe", "v\xfe"},
 	},
 	{ // X-B
 		{"2", "2", "2"},
